@@ -127,7 +127,9 @@ def _lingua_obs(raw, via):
 
         register_extractors()
         _state["lingua"] = True
-    cfg = {"comment-tags": " ".join(raw["tags"])}
+    # (Lingua's option is one string: tags separated by white space - one blank, several, a tab, a trailing blank)
+    tj = raw.get("tagjoin", " ")
+    cfg = {"comment-tags": tj.join(raw["tags"]) + (" " if tj == "  " else "")}
     if raw["decl"] in ("opt_input", "opt_enc"):
         cfg["encoding"] = raw["enc"]
     plugin = LinguaMakoExtractor(cfg)
@@ -479,7 +481,8 @@ def plan_strategy(max_items, max_depth):
     return st.fixed_dictionaries({
         "nl": st.sampled_from(["\n", "\n", "\r\n"]),
         "encdecl": encdecl,
-        "tags": st.sampled_from([["TRANSLATORS:"], ["TRANSLATORS:"], ["L10N:", "TRANSLATORS:"], ["xx"]]),
+        "tags": st.sampled_from([["TRANSLATORS:"], ["TRANSLATORS:"], ["L10N:", "TRANSLATORS:"], ["xx"], []]),
+        "tagjoin": st.sampled_from([" ", " ", "  ", "\t"]),
         "items": st.lists(items(0), min_size=1, max_size=max_items),
         "eof_nl": st.sampled_from([True, True, True, False]),
         "btext": st.sampled_from([False, False, True]),
